@@ -1,4 +1,5 @@
 import GomlVerif.Driver.C05
+import GomlVerif.Driver.C08
 import GomlVerif.Driver.C06
 import GomlVerif.Driver.C10
 import GomlVerif.Driver.C12
@@ -14,6 +15,8 @@ import GomlVerif.Driver.C09
 def main (args : List String) : IO UInt32 := do
   match args with
   | ["c05"] => Goml.Driver.C05.main; return 0
+  | ["c08"] => Goml.Driver.C08.main; return 0
+  | ["c08sim"] => Goml.Driver.C08.mainSim; return 0
   | ["c06"] => Goml.Driver.C06.main; return 0
   | ["c10"] => Goml.Driver.C10.main; return 0
   | ["c12"] => Goml.Driver.C12.main; return 0
